@@ -27,7 +27,7 @@ EXPLANATION = ('Pairing / restoration rules on the CFG of Segment::justify (ever
                'showing that every link of a pre-existing slot is restored, the exact write set of gr_slot_linebreak_before, and the '
                'loader rule that keeps list mutators out of justification passes.  Finiteness of the returned width and origins, and '
                'reverseSlots being its own inverse for every diacritic arrangement, are not decided.')
-FLOORS = {'RESTORE': 2, 'REVERSEPAIR': 3, 'LINEENDPAIR': 3, 'UNDO': 2, 'LINEBREAK': 1, 'NOMUTPOS': 4, 'ADVIDX': 2}
+FLOORS = {'RESTORE': 2, 'REVERSEPAIR': 3, 'LINEENDPAIR': 3, 'UNDO': 2, 'LINEBREAK': 2, 'NOMUTPOS': 4, 'ADVIDX': 2}
 
 
 def _assign_blocks(fn, lhs_render, rhs_pred=None):
@@ -563,6 +563,49 @@ def justpool(run, fx):
         run.broken('UNDO', 'justify record pool', 'expected the two record addresses (p, next) of the free-list loop, found %d' % n, fn.where())
 
 
+def nullwalk(run, fx):
+    """"every call returns": the line handed to gr_seg_justify need not contain the slots the walk is aimed at (after gr_slot_linebreak_before
+    the segment's last slot lies in another chain, and justify defaults pLast to it), so a walk `s = s->prev()` / `s = s->next()` in
+    Segment::positionSlots can run off the end of the chain.  Every dereference of such a walking variable must be dominated by a test
+    that it is not null (taken since the step)."""
+    fn = fx.one('graphite2::Segment::positionSlots')
+    walkers = {}
+    for _, e in fn.elements():
+        tgt, rhs = None, None
+        if e['k'] == 'BinaryOperator' and e['op'] == '=':
+            l = fn.strip(e['c'][0])
+            if l['k'] == 'DeclRefExpr' and l.get('vid') is not None:
+                tgt, rhs = l, fn.strip_all_casts(e['c'][1])
+        if tgt is None or rhs is None or rhs['k'] != 'CXXMemberCallExpr' or (rhs.get('fq') or '') not in ('graphite2::Slot::prev', 'graphite2::Slot::next') or rhs.get('args'):
+            continue
+        ob = fn.strip_all_casts(fn.N(rhs['obj'])) if rhs.get('obj') is not None else None
+        if ob is not None and ob['k'] == 'DeclRefExpr' and ob.get('vid') == tgt['vid']:
+            walkers[tgt['vid']] = tgt['d'].split('::')[-1]
+    if len(walkers) < 1:
+        run.broken('LINEBREAK', 'walks in positionSlots stop at the end of the chain', 'no `s = s->prev()/next()` walk found in Segment::positionSlots', fn.where())
+        return
+    bad, n = [], 0
+    for _, e in fn.elements():
+        ob = None
+        if e['k'] == 'CXXMemberCallExpr' and e.get('obj') is not None:
+            ob = fn.strip_all_casts(fn.N(e['obj']))
+        elif e['k'] == 'MemberExpr' and e.get('arrow') and e.get('dk') == 'Field':
+            ob = fn.strip_all_casts(fn.N(e['c'][0]))
+        if ob is None or ob['k'] != 'DeclRefExpr' or ob.get('vid') not in walkers:
+            continue
+        n += 1
+        name = walkers[ob['vid']]
+        if not any(f[0] == name and f[1] == '!=' and f[2] == '0' for f in dom.facts_at(fn, e['i'])):
+            bad.append((e, name))
+    if bad:
+        e, name = bad[0]
+        run.violated('LINEBREAK', 'walks in positionSlots stop at the end of the chain', fn.loc(e), '%s is dereferenced (%s) in a walk `%s = %s->prev()/next()` without a dominating test '
+                     'that it is not null: when the aimed-at slot is not on this chain (a line cut off with gr_slot_linebreak_before) the walk runs off the chain and the call crashes'
+                     % (name, fn.render(e), name, name))
+    else:
+        run.held('LINEBREAK', 'walks in positionSlots stop at the end of the chain', fn.where(), '%d dereferences of %d walking variable(s), each under a non-null test' % (n, len(walkers)))
+
+
 def run(run):
     vm = R.get_vm(run)
     fx = vm.fx
@@ -570,6 +613,7 @@ def run(run):
     undo(run, fx)
     justpool(run, fx)
     linebreak(run, fx)
+    nullwalk(run, fx)
     c03.nomutpos(run, vm)
     from . import c02
     c02.advidx(run, fx)      # justify positions with the caller's gr_font: the hinted-advance cache index (shared with C02)
